@@ -179,4 +179,65 @@ class MinimizePrologue(Unit):
                      note="an option is not handed to Problem under its own name / documented default")
 
 
-UNITS = [StaticFrame(), MinimizePrologue()]
+class MinimizeValidationOrder(Unit):
+    """C19: whatever the problem looks like (infeasible bounds, every variable fixed, ordinary), minimize hands nothing to
+    _build_result and builds no framework before the options *and* the constants have been validated and completed, the constants
+    receive exactly the keyword arguments of the caller and the framework receives the completed objects."""
+    name = "c11.minimize_validation_order"
+    props = ("C19",)
+    fmodel = "REAL"
+    functions = [("cobyqa.main", "minimize")]
+    replay = ("contracts.replays", "minimize_validation_order")
+
+    def run(self, c):
+        import types
+        m = main_shadow("prologue")
+        n = SI(z3.Int(c.fresh_name("n")))
+        c.assume(n.t >= 0)
+        feas = SB(z3.Bool(c.fresh_name("bounds_feasible")))
+        c.named["n"], c.named["bounds_feasible"] = n, feas
+        pb = types.SimpleNamespace(n=n, bounds=types.SimpleNamespace(is_feasible=feas),
+                                   x0="x0", fun_name="fun", type="problem", n_orig=n, is_feasibility=False, n_eval=0)
+        seen = {"options": None, "constants": None, "events": []}
+        completed_consts = {"completed": "constants"}
+        user_kwargs = {"low_ratio": "u1", "some_unknown_name": "u2"}
+
+        def set_opts(options, nn):
+            seen["options"] = options
+            seen["events"].append("options")
+            c.oblige("C19.minimize.options_completed_for_the_reduced_dimension", it(nn) == n.t, props=["C19"])
+
+        def set_consts(**kw):
+            seen["events"].append("constants")
+            c.oblige("C19.minimize.constants_receive_the_callers_keywords", z3.BoolVal(kw == user_kwargs), props=["C19"])
+            seen["constants"] = completed_consts
+            return completed_consts
+
+        def validated(what):
+            c.oblige(f"C19.minimize.options_validated_before_{what}", z3.BoolVal("options" in seen["events"]), props=["C19"],
+                     note="a result is produced (or the solver started) for options that were never validated")
+            c.oblige(f"C19.minimize.constants_validated_before_{what}", z3.BoolVal("constants" in seen["events"]), props=["C19"],
+                     note="a result is produced (or the solver started) for constants that were never validated: invalid or unknown "
+                          "constants are silently accepted")
+
+        def TR(pb_, options, constants):
+            validated("the_framework_is_built")
+            c.oblige("C19.minimize.framework_gets_the_completed_options_and_constants",
+                     z3.BoolVal(options is seen["options"] and constants is completed_consts and pb_ is pb), props=["C19"])
+            raise Cut
+
+        def build(pb_, penalty, success, status, n_iter, options):
+            validated("a_result_is_built")
+            c.oblige("C19.minimize.result_gets_the_completed_options", z3.BoolVal(options is seen["options"]), props=["C19"])
+            raise Cut
+        for nm in ("ObjectiveFunction", "BoundConstraints", "LinearConstraints", "NonlinearConstraints"):
+            m.__dict__[nm] = lambda *a, **k: None
+        m.__dict__["_get_bounds"] = lambda b, n: None
+        m.__dict__["_get_constraints"] = lambda cs: ([], [])
+        m.__dict__["Problem"] = lambda *a, **k: pb
+        m.__dict__.update({"_set_default_options": set_opts, "_set_default_constants": set_consts, "TrustRegion": TR, "_build_result": build})
+        kind, res = call_expecting(c, "C08.minimize_validation_order", lambda: m.minimize(lambda x: 0.0, [0.0], **user_kwargs), (Cut,))
+        c.oblige("C19.minimize.validation_order_reaches_a_result_or_the_framework", z3.BoolVal(isinstance(res, Cut)), props=["C19"])
+
+
+UNITS = [StaticFrame(), MinimizePrologue(), MinimizeValidationOrder()]
